@@ -48,6 +48,8 @@ pub struct Held {
     pub st: Box<EditState>,
     /// stack depth (above the start of the history) after each operation; None while an atomic group is open
     pub depth_after: Vec<Option<usize>>,
+    /// stamps left out because they fall into the failing class of the open finding C08-stamp-layer-down
+    pub skipped_stamps: usize,
 }
 
 /// which operation pushed the undo step number `d` (1-based depth)?
@@ -284,7 +286,7 @@ pub fn run_core_at(doc: &DocM, ops: &[Op], targets: Vec<usize>, mode: Mode, mode
         Ok(())
     })();
     match res {
-        Ok(()) => Run::Held(Box::new(Held { steps: g, changed, touches, st, depth_after })),
+        Ok(()) => Run::Held(Box::new(Held { steps: g, changed, touches, st, depth_after, skipped_stamps: it.skipped_stamps })),
         Err(f) => Run::Failed(f),
     }
 }
@@ -350,7 +352,7 @@ pub fn check(c: &Case) -> Verdict {
         Run::Failed(f) => return localise(c, ops, f),
         Run::Held(h) => *h,
     };
-    let Held { steps, changed, touches, mut st, depth_after } = held;
+    let Held { steps, changed, touches, mut st, depth_after, skipped_stamps } = held;
 
     // 2. a new edit after an undo discards the redo history
     let mut phase2 = "no_steps";
@@ -389,7 +391,7 @@ pub fn check(c: &Case) -> Verdict {
     }
     let nt = nontrivial(changed, &touches);
     let class = match &ended {
-        None => format!("complete|{}|{}", bucket(ops.len()), phase2),
+        None => format!("complete|{}|{}{}", bucket(ops.len()), phase2, if skipped_stamps > 0 { "|stamp_in_known_class_left_out" } else { "" }),
         Some((k, p)) => format!("{}|{k}", if *p { "ended_panic" } else { "ended_err" }),
     };
     Verdict::pass(nt, class)
@@ -434,6 +436,21 @@ fn scan_prefixes(c: &Case, ops: &[Op], f: &Failure, note: &str) -> Option<Verdic
     scan_with(c, ops, f, note, Mode::LastStep).or_else(|| scan_with(c, ops, f, note, Mode::Stairs))
 }
 
+/// was the stamp that follows `before` in the failing class of the known finding? (state rebuilt on a fresh editor)
+fn stamp_in_known_class(doc: &DocM, before: &[Op]) -> bool {
+    let r = guarded(|| {
+        let mut st = doc.build();
+        let mut it = Interp::default();
+        for op in before {
+            let _ = it.apply(&mut st, op);
+        }
+        let res = crate::ops::stamp_known_class(&st);
+        it.close_all();
+        res
+    });
+    matches!(r, Ok(Some(true)))
+}
+
 fn scan_with(c: &Case, ops: &[Op], f: &Failure, note: &str, mode: Mode) -> Option<Verdict> {
     for p in 1..=ops.len() {
         match run_core(&c.doc, &ops[..p], &[], mode) {
@@ -441,9 +458,12 @@ fn scan_with(c: &Case, ops: &[Op], f: &Failure, note: &str, mode: Mode) -> Optio
                 // a step that returns Err or panics names its own operation; a wrong document names the operation that made
                 // the prefix fail
                 let own = if pf.class.ends_with("_err") || pf.class.ends_with("_panic") { pf.owner.filter(|i| *i < p) } else { None };
-                let culprit = &ops[own.unwrap_or(p - 1)];
+                let ci = own.unwrap_or(p - 1);
+                let culprit = &ops[ci];
+                // a stamp outside the failing class of the known finding C08-stamp-layer-down is a different defect
+                let tag = if matches!(culprit, Op::StampLayerDown | Op::StampLayerDownSteered) && !stamp_in_known_class(&c.doc, &ops[..ci]) { "|outside_known_stamp_class" } else { "" };
                 return Some(Verdict::fail(
-                    format!("{}|culprit={}", pf.class, culprit.kind()),
+                    format!("{}|culprit={}{tag}", pf.class, culprit.kind()),
                     format!(
                         "shortest failing prefix{note}: {p} of {} operation(s) (last one {:?}), culprit {:?}; {} (the case itself failed with {}: {})",
                         ops.len(),
